@@ -49,6 +49,9 @@ def run_property(pid, tier, m=None, configs=None, quiet=False):
     cfgs = [()]
     if tier == 'thorough':
         cfgs.append(('CO_SSDO_N=2', 'CO_CSDO_N=2'))
+        if os.environ.get('VERIF_BIGCFG', '1') != '0':
+            cfgs.append(('CO_SSDO_N=3', 'CO_CSDO_N=3', 'CO_EMCY_N=40', 'CO_RPDO_N=5', 'CO_TPDO_N=6'))
+            cfgs.append(('CO_SSDO_N=1', 'CO_CSDO_N=2', 'CO_EMCY_N=9', 'CO_RPDO_N=2', 'CO_TPDO_N=3'))
     all_findings = []
     broken = []
     obligations = []
